@@ -62,6 +62,16 @@ class KB(K):
         return hash(("KB", self.ident))
 
 
+class KBW(KB):
+    """Byte compression and a weak (colliding) hash: unequal classes may share their hash."""
+
+    def __eq__(self, other):
+        return isinstance(other, KBW) and self.ident == other.ident
+
+    def __hash__(self):
+        return self.ident % 2
+
+
 def out_of(f):
     try:
         r = f()
@@ -76,7 +86,7 @@ def run_history(res, cls, empties, ops):
     db = ClassDB(cls)
     lines = [f"reset {','.join(map(str, sorted(empties))) if empties else '-'}"]
     outs = ["ok"]
-    hist = {"compress": cls is KB, "empties": sorted(empties), "ops": ops}
+    hist = {"compress": cls.__name__, "empties": sorted(empties), "ops": ops}
     first_label = {}
     order = []
     for op in ops:
@@ -240,7 +250,7 @@ def searcher_worker(cfg):
 def run(tier, seed, factor=1):
     res = common.Result("C15")
     res.rule = ("random histories (1-40 ops) of get_label/add/get_class/class-in/label-in/is_empty/set_empty over 1-7 classes "
-                "(40% empty), labels probed in -3..k+3, each history run without and with byte compression; "
+                "(40% empty), labels probed in -3..k+3, each history run without compression, with byte compression, and with compression plus a colliding hash; "
                 "non-trivial = >=3 ops touching >=2 classes; distinct by (compression, empties, ops); (b) the databases of real searchers (4 levels, "
                 "symmetry/inferral/factory packs): cached emptiness vs the class, label stability")
     rnd = random.Random(seed * 31337 + 15)
@@ -248,7 +258,7 @@ def run(tier, seed, factor=1):
     text, metas = [], []
     for i in range(n):
         empties, ops = rand_case(rnd)
-        for cls in (K, KB):
+        for cls in (K, KB, KBW):
             lines, outs = run_history(res, cls, empties, ops)
             res.case((cls.__name__, tuple(sorted(empties)), tuple(ops)),
                      nontrivial=len(ops) >= 3 and len({o[1] for o in ops if o[0] in ("L", "S", "A")}) >= 2)
@@ -297,5 +307,6 @@ def replay(case):
         o = searcher_worker(inp)
         return {"signature": o["problems"][0][0], "input": inp, "detail": o["problems"][0][1]} if o["problems"] else None
     r = common.Result("C15")
-    run_history(r, KB if inp["compress"] else K, set(inp["empties"]), [tuple(o) for o in inp["ops"]])
+    cls = {"K": K, "KB": KB, "KBW": KBW, True: KB, False: K}[inp["compress"]]
+    run_history(r, cls, set(inp["empties"]), [tuple(o) for o in inp["ops"]])
     return r.failures[0] if r.failures else None
